@@ -851,7 +851,10 @@ func (w *World) doDevStart(p int, op Op) Obs {
 		}
 	}
 	for _, a := range dr.GetRequestedAudience() {
-		dr.GrantAudience(a)
+		// as at the authorization endpoint: nil or ["*"] grants every requested audience, otherwise only the named ones
+		if op.GAud == nil || len(op.GAud) == 1 && op.GAud[0] == "*" || contains(op.GAud, a) {
+			dr.GrantAudience(a)
+		}
 	}
 	resp, err := w.Provider.NewDeviceResponse(ctx, dr, w.session())
 	if err != nil {
